@@ -231,7 +231,10 @@ Definition spec_op (s : sstate) (o : op) (err : Z) (la : addr) (lp : Z) : sstate
       match sslookup (ss_socks s) i with
       | None => s
       | Some k =>
-          let k' := mkS (k_kind k) (k_net k) nicid a port (owner_of s a) 1 in
+          (* tcp Bind: boundNICID = CheckLocalAddress(addr.NIC, ...): a bind that names a NIC and
+             succeeded is pinned to THAT NIC (which may hold the address only through promiscuous
+             mode or a subnet); without a NIC it is the NIC owning the address *)
+          let k' := mkS (k_kind k) (k_net k) nicid a port (if nicid =? 0 then owner_of s a else nicid) 1 in
           let s1 := setSocks s (ssput (ss_socks s) i k') in
           if k_kind k =? UDP then
             let nets := if (k_net k =? IPv6) && isNil a then [IPv6; IPv4] else [k_net k] in
